@@ -6,6 +6,7 @@
   the executable predicate `Spec.c02` on the implementation's printed down migration.
 -/
 import SqlizeModel.Abs.Columns
+import SqlizeModel.Proofs.WalkRefine
 import SqlizeModel.Impl.Api
 import SqlizeModel.Spec.Scope
 
@@ -28,6 +29,13 @@ def Statement_partial : Prop :=
 theorem columns (N O : List Abs.Name) (hN : N.Nodup) (hO : O.Nodup) (hc : Abs.OrderCompatible N O) :
     Abs.execAll N (Abs.emitDown (Abs.tagged N O)) = some O :=
   Abs.columns_down N O hN hO hc
+
+/-- the same on the implementation model's down walk (refinement `walkCols_down_refines`) -/
+theorem printed_columns (g : Globals) (hio : g.ignoreOrder = false) (hd : g.dialect ≠ .sqlite) (tb : String)
+    (cols : List Column) (hact : ∀ c ∈ cols, SimpleAction c.action) (hne : ∀ c ∈ cols, c.name ≠ "")
+    (hnd : (cols.map (·.name)).Nodup) :
+    Abs.execAll (newNames cols) ((Table.walkCols g tb false [] cols).1.filterMap colStmt) = some (oldNames cols) :=
+  printed_down_correct g hio hd tb cols hact hne hnd
 
 /-- running up and then down on the old column list is the identity -/
 theorem up_down_identity (N O : List Abs.Name) (hN : N.Nodup) (hO : O.Nodup) (hc : Abs.OrderCompatible N O) :
